@@ -141,6 +141,7 @@ type Scenario struct {
 	Kind  string
 	Local []LocalHop
 	Mut   string
+	Cell  *TableCell // set for cells of the exhaustive link-type table
 }
 
 func (s *Scenario) Clone() *Scenario {
